@@ -1,10 +1,98 @@
 import VOPyVerif.Drv.Proto
-/-! Driver front end for property C12 (line protocol → executable model). -/
+import VOPyVerif.Model.ConeFormulas
+/-! Driver front end for property C12 (cone orders; bundled cone constructors).
+
+Exact (`Rat`) ops — arguments in the line protocol of `Drv/Proto.lean`:
+* `dom <W> <a> <b>`        → `1`/`0` : `dominates W a b`   (`PolyhedralConeOrder.dominates`, 1-D inputs)
+* `domB <W> <A> <B>`       → bools   : row-wise `dominates W A[i] B[i]` (`A`, `B` with equally many rows)
+* `inside <W> <x>`         → `1`/`0` : `inCone W x`         (`OrderingCone.is_inside`, 1-D input)
+* `insideB <W> <X>`        → bools   : `inCone W X[i]` for every row (batched call)
+* `ident <m>`              → matrix  : `identMat m`          (`ComponentwiseOrder(m).ordering_cone.W`)
+* `allclose <W1> <W2>`     → `1`/`0`/`shape` : `np.allclose(W1, W2)` (default tolerances) in exact arithmetic
+  for equal shapes (`OrderingCone.__eq__`)
+
+Float ops (the `RealLike` terms at `Float`); θ is sent as the exact `num/den` of the Python float, answers
+are matrices of IEEE bit patterns (`Float.toBits` as decimal naturals; `,` / `;` separated):
+* `theta2d <θ>`            → `get2dW θ`
+* `theta2dclosed <θ>`      → `get2dWClosed θ` (closed form the theorems relate `get2dW` to)
+* `cone3d <acute|right|obtuse>` → `cone3D kind`
+* `icecream <K> <θ>`       → `iceCreamW K θ`
+* `icerot`                 → `iceRot`  (the Rodrigues matrix)
+* `iceaxis`                → `iceAxis` (one row)
+-/
 namespace VOPy.Drv.C12
-open VOPy VOPy.Proto
+open VOPy VOPy.Proto VOPy.ConeFormulas
+
+def fmtFloatBits (x : Float) : String := toString x.toBits.toNat
+def fmtFVec (v : List Float) : String := fmtList "," fmtFloatBits v
+def fmtFMat (m : List (List Float)) : String := fmtList ";" fmtFVec m
+
+def parseFloatQ (s : String) : Option Float := (parseRat s).map ratToFloat
+
+def parseKind (s : String) : Option Kind3D :=
+  if s = "acute" then some .acute else if s = "right" then some .right
+  else if s = "obtuse" then some .obtuse else none
+
+def rabs (x : Rat) : Rat := if x < 0 then -x else x
+
+/-- `|x - y| <= atol + rtol * |y|` with `rtol = 1e-5`, `atol = 1e-8` -/
+def closeQ (x y : Rat) : Bool :=
+  decide (rabs (x - y) ≤ (1 : Rat) / 100000000 + (1 : Rat) / 100000 * rabs y)
+
+/-- `np.allclose` on equal-shape matrices; `none` if the shapes differ -/
+def allcloseMat (A B : Mat) : Option Bool :=
+  if A.length = B.length ∧ (A.map List.length) = (B.map List.length) then
+    some ((List.zipWith (fun a b => (List.zipWith closeQ a b).all id) A B).all id)
+  else none
 
 def handle (args : List String) : String :=
   match args with
+  | ["dom", w, a, b] =>
+    match parseMat w, parseVec a, parseVec b with
+    | some W, some a, some b => fmtBool (dominates W a b)
+    | _, _, _ => bad
+  | ["domB", w, a, b] =>
+    match parseMat w, parseMat a, parseMat b with
+    | some W, some A, some B =>
+      if A.length = B.length then fmtBools (List.zipWith (dominates W) A B) else bad
+    | _, _, _ => bad
+  | ["inside", w, x] =>
+    match parseMat w, parseVec x with
+    | some W, some x => fmtBool (inCone W x)
+    | _, _ => bad
+  | ["insideB", w, x] =>
+    match parseMat w, parseMat x with
+    | some W, some X => fmtBools (X.map (inCone W))
+    | _, _ => bad
+  | ["ident", m] =>
+    match m.toNat? with
+    | some m => fmtMat (identMat m)
+    | none => bad
+  | ["allclose", a, b] =>
+    match parseMat a, parseMat b with
+    | some A, some B =>
+      match allcloseMat A B with
+      | some r => fmtBool r
+      | none => "shape"
+    | _, _ => bad
+  | ["theta2d", t] =>
+    match parseFloatQ t with
+    | some θ => fmtFMat (get2dW θ)
+    | none => bad
+  | ["theta2dclosed", t] =>
+    match parseFloatQ t with
+    | some θ => fmtFMat (get2dWClosed θ)
+    | none => bad
+  | ["cone3d", k] =>
+    match parseKind k with
+    | some k => fmtFMat (cone3D (α := Float) k)
+    | none => bad
+  | ["icecream", k, t] =>
+    match k.toNat?, parseFloatQ t with
+    | some K, some θ => fmtFMat (iceCreamW K θ)
+    | _, _ => bad
+  | ["icerot"] => fmtFMat (iceRot (α := Float))
+  | ["iceaxis"] => fmtFVec (iceAxis (α := Float))
   | _ => bad
 
 end VOPy.Drv.C12
